@@ -133,7 +133,7 @@ def locals_mutated(ex, o, fr_fn):
     return {}
 
 
-def struct_functions(funcs, types=None):
+def struct_functions(funcs, types=None, by_value=False):
     for name, l in sorted(funcs.items()):
         for f in l:
             if SKIP_FN.search(f.name) or not f.params or not f.ret:
@@ -141,7 +141,7 @@ def struct_functions(funcs, types=None):
             rt = last_seg(f.ret)
             if rt.startswith("Box"):
                 continue
-            ins = [i for i, (p, t) in enumerate(f.params) if t.startswith("&") and last_seg(t) == rt]
+            ins = [i for i, (p, t) in enumerate(f.params) if (t.startswith("&") or by_value) and last_seg(t) == rt]
             if len(ins) == 1 and (types is None or rt in types):
                 yield f, rt, ins[0]
 
